@@ -429,27 +429,42 @@ TRACE_FILES: tuple = ()
 
 
 def _make_tracer():
+    def _plain(s, frame, event):
+        if event == "line" and s.preempt_budget > 0 and s.chooser.rng.random() < s.preempt_prob:
+            s.preempt_budget -= 1
+            s.emit("preempt", fn=frame.f_code.co_name, line=frame.f_lineno)
+            s.preempt_here()
+
     def local(frame, event, arg):
         s = S
+        if event == "line" and s is not None and not s.finished:
+            _plain(s, frame, event)
+        return local
+
+    def local_hot(frame, event, arg):
+        # inside (or called from) the functions a check is interested in: a thread switch is possible between any two bytecodes
+        s = S
         if event in ("line", "opcode") and s is not None and not s.finished:
-            if event == "opcode" and not (s.hot_re is not None and s.hot_budget > 0):
-                return local
-            if s.hot_re is not None and s.hot_budget > 0 and s.hot_re.search(frame.f_code.co_name) and s.chooser.rng.random() < (0.5 if event == "line" else 0.12):
-                # targeted preemption inside the functions a check is interested in (e.g. callback registration)
+            if s.hot_budget > 0 and s.chooser.rng.random() < (0.5 if event == "line" else 0.12):
                 s.hot_budget -= 1
                 s.emit("preempt", fn=frame.f_code.co_name, line=frame.f_lineno, hot=True)
                 s.preempt_here()
-            elif event == "line" and s.preempt_budget > 0 and s.chooser.rng.random() < s.preempt_prob:
-                s.preempt_budget -= 1
-                s.emit("preempt", fn=frame.f_code.co_name, line=frame.f_lineno)
-                s.preempt_here()
-        return local
+            elif event == "line":
+                _plain(s, frame, event)
+        return local_hot
 
     def glob(frame, event, arg):
         if frame.f_code.co_filename in TRACE_FILES:
             s = S
-            if s is not None and s.hot_re is not None and s.hot_budget > 0 and s.hot_re.search(frame.f_code.co_name):
-                frame.f_trace_opcodes = True      # inside the functions of interest a thread switch is possible between any two bytecodes
+            if s is not None and s.hot_re is not None and s.hot_budget > 0:
+                f = frame
+                for _ in range(6):
+                    if f is None:
+                        break
+                    if f.f_code.co_filename in TRACE_FILES and s.hot_re.search(f.f_code.co_name):
+                        frame.f_trace_opcodes = True
+                        return local_hot
+                    f = f.f_back
             return local
         return None
 
